@@ -1,4 +1,5 @@
 import KG.Lemmas.Strategy
+import KG.Gen.C20
 /-!
 # C20 — Control-plane objects: spec/status separation and generation conventions
 
@@ -116,5 +117,277 @@ theorem c20_main_update_generation (r : Reg) (hw : WellShaped r) (mr : MetaRules
     simp only [not_false_eq_true, forall_const, and_true, iff_false]
     omega
 
+/-! ## The judge (what the harness evaluates on the real code's answers) holds on the model -/
+
+omit [DecidableEq S] [DecidableEq A] in
+theorem c20_judge_create [DecidableEq T] (r : Reg) (hc : Consistent r) (mr : MetaRules L A M S T) (zero : T)
+    (o o' : Obj L A M S T) (h : beforeCreate r mr zero o = .ok o') :
+    judgeCreate r.served zero o' = [] := by
+  obtain ⟨hg, _⟩ := c20_create_exact r mr zero o o' h
+  cases hs : r.served
+  · simp [judgeCreate, check, hg]
+  · have := (c20_create r hc mr zero o o' hs h).2
+    simp [judgeCreate, check, hg, this]
+
+theorem c20_judge_status [DecidableEq L] (r : Reg) (hw : WellShaped r) (mr : MetaRules L A M S T)
+    (sub old o' : Obj L A M S T) (h : beforeUpdate r .status mr sub old = .ok o') :
+    judgeStatusUpdate old o' = [] := by
+  obtain ⟨h1, h2, h3, _, _⟩ := c20_status_update r hw mr sub old o' h
+  simp [judgeStatusUpdate, check, h1, h2, h3]
+
+theorem c20_judge_main [DecidableEq T] (r : Reg) (hw : WellShaped r) (hc : Consistent r) (mr : MetaRules L A M S T)
+    (sub old o' : Obj L A M S T) (hg : isI64 old.generation)
+    (h : beforeUpdate r .main mr sub old = .ok o') :
+    judgeMainUpdate r.served old o' = [] := by
+  obtain ⟨hiff, hkeep⟩ := c20_main_update_generation r hw mr sub old o' hg h
+  have hst : r.served = true → o'.status = old.status := fun hs => c20_main_update_status r hw hc mr sub old o' hs h
+  unfold judgeMainUpdate changed check
+  have h1 : (!r.served || o'.status == old.status) = true := by
+    cases hs : r.served
+    · simp
+    · simp [hst hs]
+  rw [h1]
+  by_cases hch : o'.spec ≠ old.spec ∨ o'.annotations ≠ old.annotations
+  · have : (o'.spec != old.spec || o'.annotations != old.annotations) = true := by
+      rcases hch with h | h <;> simp [h]
+    simp [this, hiff.2 hch]
+  · have : (o'.spec != old.spec || o'.annotations != old.annotations) = false := by
+      have h' : o'.spec = old.spec ∧ o'.annotations = old.annotations := by
+        constructor
+        · exact Classical.byContradiction fun hne => hch (Or.inl hne)
+        · exact Classical.byContradiction fun hne => hch (Or.inr hne)
+      simp [h'.1, h'.2]
+    simp [this, hkeep hch]
+
+/-! ## Every history through the API
+
+`apiRun` plays any list of requests (creates, updates through either endpoint, deletes; accepted or rejected)
+from the empty state. The stored generation is always an `int64` ≥ 1, so the range hypothesis of
+`c20_main_update_generation` is discharged for every state a client can reach, and every accepted request of
+every history meets the judge. -/
+
+def GenOk (st : Option (Obj L A M S T)) : Prop := ∀ o, st = some o → isI64 o.generation ∧ 1 ≤ o.generation
+
+omit [DecidableEq S] [DecidableEq A] in
+theorem genOk_create (r : Reg) (mr : MetaRules L A M S T) (zero : T) (o : Obj L A M S T) :
+    GenOk (beforeCreate r mr zero o).toOption := by
+  intro o' h
+  cases hb : beforeCreate r mr zero o with
+  | error e => simp [hb, Except.toOption] at h
+  | ok x =>
+    simp [hb, Except.toOption] at h
+    subst h
+    have := (c20_create_exact r mr zero o x hb).1
+    rw [this]; unfold isI64 i64Lo i64Hi; omega
+
+theorem genOk_step (r : Reg) (hw : WellShaped r) (mr : MetaRules L A M S T) (zero : T)
+    (st : Option (Obj L A M S T)) (a : Api L A M S T) (h : GenOk st) : GenOk (apiStep r mr zero st a) := by
+  cases st with
+  | none =>
+    cases a with
+    | create o => exact genOk_create r mr zero o
+    | update ep o =>
+      simp only [apiStep]
+      split
+      · intro _ h'; cases h'
+      · exact genOk_create r mr zero o
+    | delete => intro _ h'; simp [apiStep] at h'
+  | some cur =>
+    have hcur := h cur rfl
+    cases a with
+    | create o => simpa [apiStep] using h
+    | delete => intro _ h'; simp [apiStep] at h'
+    | update ep o =>
+      simp only [apiStep]
+      cases hb : beforeUpdate r ep mr o cur with
+      | error e => simpa using h
+      | ok o' =>
+        intro x hx
+        simp only [Option.some.injEq] at hx
+        subst hx
+        cases ep with
+        | status =>
+          have := (c20_status_update r hw mr o cur o' hb).2.2.1
+          rw [this]; exact hcur
+        | main =>
+          obtain ⟨hiff, hkeep⟩ := c20_main_update_generation r hw mr o cur o' hcur.1 hb
+          obtain ⟨_, _, _, hnn, hdec⟩ := beforeUpdate_ok hb
+          by_cases hch : o'.spec ≠ cur.spec ∨ o'.annotations ≠ cur.annotations
+          · have hg := hiff.2 hch
+            obtain ⟨_, _, heq, _, _⟩ := beforeUpdate_ok hb
+            obtain ⟨_, _, hgen⟩ := main_prepare_generation r hw o cur
+            have hrange : isI64 o'.generation := by
+              rw [heq]; simp only at hgen ⊢; rw [hgen]
+              split
+              · exact toI64_isI64 _
+              · exact hcur.1
+            exact ⟨hrange, by omega⟩
+          · rw [hkeep hch]; exact hcur
+
+theorem genOk_run (r : Reg) (hw : WellShaped r) (mr : MetaRules L A M S T) (zero : T)
+    (st : Option (Obj L A M S T)) (as : List (Api L A M S T)) (h : GenOk st) : GenOk (apiRun r mr zero st as) := by
+  induction as generalizing st with
+  | nil => exact h
+  | cons a as ih => exact ih _ (genOk_step r hw mr zero st a h)
+
+/-- **C20 over histories**: after ANY list of API requests from the empty state, any further accepted
+    main-resource update obeys the generation rule and the status clause — no hypothesis on the stored
+    generation is left. -/
+theorem c20_history [DecidableEq T] (r : Reg) (hw : WellShaped r) (hc : Consistent r) (mr : MetaRules L A M S T)
+    (zero : T) (hist : List (Api L A M S T)) (cur sub o' : Obj L A M S T)
+    (hreach : apiRun r mr zero none hist = some cur)
+    (h : beforeUpdate r .main mr sub cur = .ok o') :
+    judgeMainUpdate r.served cur o' = [] ∧ 1 ≤ cur.generation := by
+  have hok := genOk_run r hw mr zero none hist (fun _ h => by cases h) cur hreach
+  exact ⟨c20_judge_main r hw hc mr sub cur o' hok.1 h, hok.2⟩
+
+/-! ## The property in the API's view (what a client can observe)
+
+`=` above is `reflect.DeepEqual` on decoded values. A client sees renderings: `View` maps each field group to
+what the API shows (`{}`/`[]`/`""` and "absent" render alike). Every clause survives the passage to the view
+except `mainKeep`: if the request spelled an empty value out, spec and annotations READ the same before and
+after while the decoded values differ, and the generation is bumped. -/
+
+variable {L' A' S' T' : Type} [DecidableEq L'] [DecidableEq A'] [DecidableEq S'] [DecidableEq T']
+
+/-- the full API-level statement for main-resource updates -/
+def MainUpdateInView (L A M S T L' A' S' T' : Type) [DecidableEq S] [DecidableEq A] [DecidableEq L'] [DecidableEq A']
+    [DecidableEq S'] [DecidableEq T'] : Prop :=
+  ∀ (r : Reg) (_ : WellShaped r) (_ : Consistent r) (mr : MetaRules L A M S T) (v : View L A S T L' A' S' T')
+    (sub old o' : Obj L A M S T), isI64 old.generation →
+    beforeUpdate r .main mr sub old = .ok o' → judgeMainUpdate r.served (v.obj old) (v.obj o') = []
+
+/-- Whatever the view, the only clause an accepted main-resource update can break is "bumped although nothing
+    visible changed". -/
+theorem c20_view_only_spurious_bump [DecidableEq T] (r : Reg) (hw : WellShaped r) (hc : Consistent r)
+    (mr : MetaRules L A M S T) (v : View L A S T L' A' S' T') (sub old o' : Obj L A M S T)
+    (hg : isI64 old.generation) (h : beforeUpdate r .main mr sub old = .ok o') :
+    judgeMainUpdate r.served (v.obj old) (v.obj o') = [] ∨
+    (judgeMainUpdate r.served (v.obj old) (v.obj o') = [.mainKeep] ∧
+      (o'.spec ≠ old.spec ∨ o'.annotations ≠ old.annotations) ∧ o'.generation = old.generation + 1) := by
+  obtain ⟨hiff, hkeep⟩ := c20_main_update_generation r hw mr sub old o' hg h
+  have hst : r.served = true → o'.status = old.status := fun hs => c20_main_update_status r hw hc mr sub old o' hs h
+  have h1 : (!r.served || v.status o'.status == v.status old.status) = true := by
+    cases hs : r.served
+    · simp
+    · simp [hst hs]
+  unfold judgeMainUpdate changed check View.obj
+  simp only [h1]
+  by_cases hch : o'.spec ≠ old.spec ∨ o'.annotations ≠ old.annotations
+  · have hg1 := hiff.2 hch
+    by_cases hv : (v.spec o'.spec != v.spec old.spec || v.annotations o'.annotations != v.annotations old.annotations) = true
+    · left; simp [hv, hg1]
+    · right
+      have hv' : (v.spec o'.spec != v.spec old.spec || v.annotations o'.annotations != v.annotations old.annotations) = false := by
+        simpa using hv
+      refine ⟨?_, hch, hg1⟩
+      simp [hv', hg1]
+  · left
+    have h' : o'.spec = old.spec ∧ o'.annotations = old.annotations := by
+      constructor
+      · exact Classical.byContradiction fun hne => hch (Or.inl hne)
+      · exact Classical.byContradiction fun hne => hch (Or.inr hne)
+    simp [h'.1, h'.2, hkeep hch]
+
+/-- The view is faithful on a pair when values that render alike are equal (true when both objects went
+    through the JSON rendering once: the stored one always did). -/
+def Faithful (v : View L A S T L' A' S' T') (a b : Obj L A M S T) : Prop :=
+  (v.spec a.spec = v.spec b.spec → a.spec = b.spec) ∧
+  (v.annotations a.annotations = v.annotations b.annotations → a.annotations = b.annotations)
+
+/-- **C20 in the API's view, for requests without spelled-out empties** (`…_partial` of §6: the excluded
+    inputs are exactly those on which the view is not faithful). -/
+theorem c20_main_update_view_partial [DecidableEq T] (r : Reg) (hw : WellShaped r) (hc : Consistent r)
+    (mr : MetaRules L A M S T) (v : View L A S T L' A' S' T') (sub old o' : Obj L A M S T)
+    (hg : isI64 old.generation) (h : beforeUpdate r .main mr sub old = .ok o')
+    (hf : Faithful v o' old) :
+    judgeMainUpdate r.served (v.obj old) (v.obj o') = [] := by
+  rcases c20_view_only_spurious_bump r hw hc mr v sub old o' hg h with h0 | ⟨hk, hch, _⟩
+  · exact h0
+  · exfalso
+    -- mainKeep was reported: the view saw no change, so by faithfulness there was none
+    have hnv : (changed (v.obj old) (v.obj o')) = false := by
+      cases hc' : changed (v.obj old) (v.obj o')
+      · rfl
+      · unfold judgeMainUpdate at hk
+        rw [hc'] at hk
+        simp only [if_true] at hk
+        unfold check at hk
+        have : ∀ (a : List Clause) (b : Bool), a ++ (if b then [] else [Clause.mainBump]) ≠ [Clause.mainKeep] := by
+          intro a b; cases b <;> cases a with
+          | nil => simp
+          | cons x xs =>
+            cases xs with
+            | nil => simp
+            | cons y ys => simp
+        exact absurd hk (this _ _)
+    unfold changed View.obj at hnv
+    simp at hnv
+    rcases hch with h1 | h1
+    · exact h1 (hf.1 hnv.1)
+    · exact h1 (hf.2 hnv.2)
+
 end
+
+/-! ### Refutation of the full API-level statement (finding C20-empty-vs-absent-bumps-generation)
+
+Annotations `none` = absent, `some []` = spelled out as `{}`; both render as "no annotations". -/
+
+def witnessReg : Reg := { shape := ⟨true, true, true⟩, subStatus := true, optSubStatus := true }
+def witnessRules : MetaRules Unit (Option (List Nat)) Unit Nat Nat :=
+  { fixCreate := id, fixUpdate := fun n _ => n, validCreate := fun _ => true, validUpdate := fun _ _ => true }
+def witnessView : View Unit (Option (List Nat)) Nat Nat Unit (List Nat) Nat Nat :=
+  { labels := id, annotations := fun a => a.getD [], spec := id, status := id }
+def witnessStored : Obj Unit (Option (List Nat)) Unit Nat Nat :=
+  { labels := (), annotations := none, generation := 5, otherMeta := (), spec := 7, status := 3 }
+def witnessSubmitted : Obj Unit (Option (List Nat)) Unit Nat Nat := { witnessStored with annotations := some [] }
+
+theorem c20_view_full_false :
+    ¬ MainUpdateInView Unit (Option (List Nat)) Unit Nat Nat Unit (List Nat) Nat Nat := by
+  intro hfull
+  have h := hfull witnessReg (by decide) (by decide) witnessRules witnessView witnessSubmitted witnessStored
+    { witnessSubmitted with generation := 6 } (by decide) (by decide)
+  revert h
+  decide
+
+/-! ## The registrations of rest.go (regenerated on every run by tools/extract/c20) -/
+
+def regOf (f : KG.Gen.C20.RegFact) : Reg :=
+  { shape := ⟨f.hasMeta, f.hasSpec, f.hasStatus⟩, subStatus := f.strategySubStatus, optSubStatus := f.optSubStatus }
+
+/-- Every registered kind has ObjectMeta, Spec and Status (so the theorems above apply to it, served with a
+    status subresource or not). A kind added to rest.go is in the regenerated list and re-decided here. -/
+theorem c20_registrations_wellshaped : ∀ f ∈ KG.Gen.C20.registrations, WellShaped (regOf f) := by decide
+
+/-- Every kind served with a status subresource has a main strategy built with `subStatus = true` (otherwise a
+    main-resource update would overwrite its status). -/
+theorem c20_registrations_consistent : ∀ f ∈ KG.Gen.C20.registrations, Consistent (regOf f) := by decide
+
+/-- At least one kind is served with a status subresource (the property's quantifier is not empty). -/
+theorem c20_registrations_some_served : ∃ f ∈ KG.Gen.C20.registrations, (regOf f).served = true := by decide
+
+/-! ## Non-vacuity: the hypotheses are satisfiable by concrete, non-trivial requests -/
+
+/-- a no-op main update of generation 5 is accepted and stays at 5 (the original witness: it went 5 → 6) -/
+example : beforeUpdate witnessReg .main witnessRules witnessStored witnessStored = .ok witnessStored := by decide
+/-- an annotation change is accepted and bumps 5 → 6 -/
+example : (beforeUpdate witnessReg .main witnessRules { witnessStored with annotations := some [1] } witnessStored).toOption.map
+    (·.generation) = some 6 := by decide
+/-- a status update with another spec/status is accepted, spec restored, generation kept -/
+example : beforeUpdate witnessReg .status witnessRules { witnessStored with spec := 9, status := 4, generation := 77 } witnessStored
+    = .ok { witnessStored with status := 4 } := by decide
+/-- creation with a client-supplied status and generation: both overwritten -/
+example : beforeCreate witnessReg witnessRules 0 { witnessStored with generation := 40 }
+    = .ok { witnessStored with generation := 1, status := 0 } := by decide
+/-- at generation MaxInt64 a change is REJECTED (the wrapped value fails "must not be decremented") -/
+example : beforeUpdate witnessReg .main witnessRules { witnessStored with spec := 8 }
+    { witnessStored with generation := 9223372036854775807 } = .error .invalid := by decide
+/-- a reachable state of `c20_history` -/
+example : apiRun witnessReg witnessRules 0 none [.create witnessStored, .update .main { witnessStored with spec := 8 },
+    .update .status { witnessStored with status := 9 }] =
+    some { witnessStored with spec := 8, status := 9, generation := 2 } := by decide
+/-- the view is faithful on objects without spelled-out empties -/
+example : Faithful witnessView { witnessStored with annotations := some [1] } witnessStored := by
+  constructor <;> intro h <;> revert h <;> decide
+
 end KG.Props.C20
